@@ -89,6 +89,22 @@ def at_scale_case(ctx, g, rng):
     recs = gen.large_records(rng, n)
     with probe.monitor_mode():
         c = api.Converter([gen.mk_record(api, r) for r in recs])
+    # (several remappings of the large converter, each over a sample of its own: renames that move a record to the
+    #  front or to the back of any sorted order, followed by pairs onto prefixes that other records own - seed C11-W: a
+    #  binary search over a list of records that the renames applied so far have un-sorted)
+    for _round in range(5):
+        some = rng.sample(recs, k=30)
+        front = rng.random() < 0.5
+        m = {}
+        for i, r in enumerate(rng.sample(some, k=len(some))):
+            if i % 3 == 0:
+                m[r.prefix] = ("AA" if front else "zz") + r.prefix  # plain rename
+            elif i % 3 == 1:
+                m[r.prefix] = rng.choice(recs).prefix  # onto another record's prefix (or its own): skipped
+            else:
+                m["unknown" + str(i)] = "x" + str(i)
+        call(curies.remap_curie_prefixes, c, m)
+        S.counters["wl:at-scale:rename-then-clash-remappings"] += 1
     some = rng.sample(recs, k=30)
     m = {}
     for i, r in enumerate(some):
